@@ -441,6 +441,65 @@ def run_copy(w, rec):
     return [s]
 
 
+def _fresh_with(obj, field, value):
+    """The object the public constructor builds from obj's defining parameters with one of them changed."""
+    L = lib()
+    cls = type(obj)
+    name = cls.__name__
+    k = ref.kind_of(obj)
+    g = lambda n: value if n == field else getattr(obj, n)
+    if k == "pdf":
+        return cls(Sigma=g("Sigma"), mu=g("mu"))
+    if k == "measure":
+        return cls(Lambda=g("Lambda"), nu=g("nu"), ln_beta=g("ln_beta"))
+    if name == "ConjugateFactor":
+        return cls(Lambda=g("Lambda"), nu=g("nu"), ln_beta=g("ln_beta"))
+    if name == "OneRankFactor":
+        return cls(v=g("v"), g=g("g"), nu=g("nu"), ln_beta=g("ln_beta"))
+    if name == "LinearFactor":
+        return cls(nu=g("nu"), ln_beta=g("ln_beta"))
+    if name == "ConstantFactor":
+        return cls(ln_beta=g("ln_beta"), num_dim=int(obj.D))
+    if name in ("ConditionalGaussianPDF", "ConditionalGaussianDiagPDF"):
+        return cls(M=g("M"), b=g("b"), Sigma=g("Sigma"))
+    if name in HETERO:
+        return cls(M=g("M"), b=g("b"), A=g("A"), W=g("W"))
+    if name == "LRBFGaussianConditional":
+        return cls(M=g("M"), b=g("b"), mu=g("mu"), length_scale=g("length_scale"), Sigma=g("Sigma"))
+    return None
+
+
+def run_replace(w, rec):
+    """obj.replace(field=value) (dataclass-style functional update, public on every library class) must equal
+    the object constructed from scratch with that parameter: derived quantities are recomputed, never carried."""
+    from . import perturb
+
+    o = w.obj(rec["a"])
+    val = w.f(rec, "value")
+    new = o.replace(**{rec["field"]: val})
+    s = w.put(rec, new)
+    if w.traced is None:
+        fresh = _fresh_with(o, rec["field"], val)
+        if fresh is not None:
+            where = f"step {rec['_i']} replace({rec['field']})"
+            perturb.same_function("I_replace", new, fresh, (w.salt, rec["_i"]), where)
+            an, af = ref.attrs_of(new), ref.attrs_of(fresh)
+            for n in an:
+                if an[n] is None or af.get(n) is None:
+                    continue
+                if n in ("ln_det_Sigma", "ln_det_Lambda", "lnZ", "ln_beta"):
+                    ref.cmp_log("I_replace." + n, an[n], af[n], where=where)
+                else:
+                    ref.cmp_lin("I_replace." + n, an[n], af[n], floor=1e-6, where=where)
+            if type(o).__name__ in HETERO:
+                jnp = lib()["jnp"]
+                x = jnp.asarray(ref.generic_points(int(o.Dx), ("repl", w.salt, rec["_i"]))[:2])
+                a1, a2 = new.get_conditional_cov(x), fresh.get_conditional_cov(x)
+                ref.cmp_lin("I_replace.conditional_cov", A(a1), A(a2), where=where)
+            w.stats["chk.I_replace"] += 1
+    return [s]
+
+
 def run_update(w, rec):
     w.obj(rec["a"]).update(_idx(rec), w.obj(rec["d"]))
     return [w.slots[rec["a"]]]
@@ -534,7 +593,7 @@ RUN = {
     "get_density": run_get_density, "normalize": run_normalize, "marginal": run_marginal,
     "linear_sum": run_linear_sum, "condition_on": run_condition_on, "cond_x": run_cond_x,
     "set_y": run_set_y, "affine": run_affine, "update": run_update, "update_sigma": run_update_sigma,
-    "obs": run_obs, "truncate": run_truncate, "copy": run_copy,
+    "obs": run_obs, "truncate": run_truncate, "copy": run_copy, "replace": run_replace,
 }
 MUTATORS = {"normalize", "update", "update_sigma"}
 OPERAND_KEYS = ("a", "f", "p", "d", "q")
